@@ -282,6 +282,15 @@ Theorem GenTie_mul_redc : forall N a b md inv,
 Proof. exact g_mul_redc_eq. Qed.
 Print Assumptions GenTie_mul_redc.
 
+(* algorithms::square_redc: three inner loops per row (cross terms `for j in (i+1)..N` touching index j,
+   reduction `for j in 1..N` reading j and writing j-1, the carry logic on modulus[N-1] with its u128
+   wrapping additions) = Redc.sq_cross / sq_reduce / sq_row / sq_rows *)
+Theorem GenTie_square_redc : forall N a md inv,
+  (1 <= length a)%nat -> N = Z.of_nat (length a) -> N < B -> length md = length a ->
+  g_square_redc N a md inv = Redc.square_redc a md inv.
+Proof. exact g_square_redc_eq. Qed.
+Print Assumptions GenTie_square_redc.
+
 (* the premises are satisfiable and the generated code computes: reciprocal(2^63) = 2^64 - 1 *)
 Example GenTie_nonvacuous :
   g_reciprocal_mg10 (2 ^ 63) = Val (2 ^ 64 - 1) /\ g_mask 65 = Val 1 /\ g_nlimbs 65 = Val 2 /\
@@ -294,5 +303,6 @@ Example GenTie_nonvacuous :
   g_div_nx1_normalized [5; 7] (2 ^ 63) = Val (5, [14; 0]) /\
   g_div_nx1 [5; 7] 3 = Val (0, [6148914691236517207; 2]) /\
   g_div_nx2 [5; 7; 1] (2 ^ 64 + 1) = Val (2 ^ 64, [5; 1; 0]) /\
-  g_mul_redc 1 [3] [5] [15] 0x1111111111111111 = Val [0].
+  g_mul_redc 1 [3] [5] [15] 0x1111111111111111 = Val [0] /\
+  g_square_redc 2 [5; 0] [9; 1] 0x71c71c71c71c71c7 = Val [14119730031728298775; 0].
 Proof. vm_compute. repeat split. Qed.
